@@ -34,11 +34,11 @@ def abstract(s):
 class Canon:
     """canonical rendering of one function body"""
 
-    def __init__(self, P, F):
+    def __init__(self, P, F, alias_params=True):
         self.P, self.F = P, F
         self.alias = {}
         for i, p in enumerate(F.params):
-            self.alias[p] = "p%d" % i
+            self.alias[p] = ("p%d" % i) if alias_params else P.d(p).get("n", "p%d" % i)
         self.nloc = 0
 
     def name(self, key, d):
@@ -88,8 +88,8 @@ class Canon:
         if k in ("BinaryOperator", "CompoundAssignOperator"):
             a, b = r(c[0]), r(c[1])
             op = n["op"]
-            if op in ("+", "*", "&&", "||", "==", "!=") and b < a and "(" not in a[:1]:
-                pass   # keep source order: floating-point evaluation order is part of the closed form
+            if op in ("+", "*") and b < a:
+                a, b = b, a      # builtin + and * are commutative bit for bit (no re-association is done)
             if op == ">":
                 a, b, op = b, a, "<"
             elif op == ">=":
